@@ -21,6 +21,9 @@ pub enum Ty {
     ListPt,
     /// display only (references produced by loops / patterns)
     Disp,
+    /// an owned, non-`Copy` value (`String`): displayed by reference, handed on as `own.clone()`;
+    /// a block that captures it must borrow it, not move it
+    Owned,
 }
 
 const GLOBALS: &[(&str, Ty, &str)] = &[
@@ -36,6 +39,7 @@ const GLOBALS: &[(&str, Ty, &str)] = &[
     ("o", Ty::OptStr, "Option<&str>"),
     ("q", Ty::OptI32, "Option<i32>"),
     ("pts", Ty::ListPt, "&[Pt]"),
+    ("own", Ty::Owned, "String"),
 ];
 
 #[derive(Clone)]
@@ -88,7 +92,7 @@ impl Scope {
         self.visible().into_iter().filter(|(_, t)| *t == ty).map(|(n, _)| n).collect()
     }
     fn displayable(&self) -> Vec<&str> {
-        self.visible().into_iter().filter(|(_, t)| matches!(t, Ty::Str | Ty::I32 | Ty::Bool | Ty::Disp)).map(|(n, _)| n).collect()
+        self.visible().into_iter().filter(|(_, t)| matches!(t, Ty::Str | Ty::I32 | Ty::Bool | Ty::Disp | Ty::Owned)).map(|(n, _)| n).collect()
     }
 }
 
@@ -281,6 +285,8 @@ fn gen_body(r: &mut Rng, sc: &mut Scope, depth: usize, budget: &mut usize, calle
                                 // between the quotes (line breaks, indentation, blank lines, tabs) is the value
                                 let lits: &[&str] = &["\"lit\"", "\"Usage:\n    prog [options]\n\n      -v   <verbose>\"", "\"a  b\tc \"", "\"\"", "\" & \n\""];
                                 args.push(Arg::Rust(r.pick(lits).to_string()));
+                            } else if ty == Ty::Owned {
+                                args.push(Arg::Rust(format!("{}.clone()", r.pick(&cands))));
                             } else {
                                 args.push(Arg::Rust(r.pick(&cands).to_string()));
                             }
@@ -409,6 +415,7 @@ pub struct EnvVals {
     pub o: Option<String>,
     pub q: Option<i32>,
     pub pts: Vec<(i32, i32)>,
+    pub own: String,
 }
 
 fn rand_str(r: &mut Rng) -> String {
@@ -434,6 +441,7 @@ pub fn rand_env(r: &mut Rng) -> EnvVals {
             _ => Some(small(r)),
         },
         pts: (0..r.below(3)).map(|_| (small(r), small(r))).collect(),
+        own: rand_str(r),
     }
 }
 
@@ -462,6 +470,7 @@ impl EnvVals {
                 None => "None".into(),
             },
             "pts" => format!("&[{}]", self.pts.iter().map(|(x, y)| format!("Pt {{ x: {x}, y: {y} }}")).collect::<Vec<_>>().join(", ")),
+            "own" => format!("String::from({})", rs(&self.own)),
             _ => "()".into(),
         }
     }
@@ -480,6 +489,7 @@ impl EnvVals {
             ("o", match &self.o { Some(v) => format!("O({})", sv(v)), None => "O-".into() }),
             ("q", match &self.q { Some(v) => format!("O(i{v})"), None => "O-".into() }),
             ("pts", format!("L[{}]", self.pts.iter().map(|(x, y)| format!("P{x}_{y}")).collect::<Vec<_>>().join(","))),
+            ("own", sv(&self.own)),
         ];
         items.iter().map(|(n, v)| format!("{}={}", hex(n.as_bytes()), v)).collect::<Vec<_>>().join(";")
     }
